@@ -718,6 +718,9 @@ func runC20(c *Ctx) {
 				usesJSON := false
 				if fn != nil {
 					for f := range p.reachableFrom([]*ssa.Function{fn}, nil) {
+						if !p.inModule(f) {
+							continue
+						}
 						allInstrs(f, func(in ssa.Instruction) {
 							if ci, ok := in.(ssa.CallInstruction); ok {
 								nm := calleeName(ci)
